@@ -308,6 +308,11 @@ def make_simdb_class(world, Storage):
                 keys = list(d.keys())
             if reverse:
                 keys.reverse()
+                if prefix and keys and keys[0] == prefix:
+                    # plyvel 1.5.1 quirk (found by selftest/simdb_vs_plyvel): a reverse prefix iterator
+                    # whose largest match is the prefix itself yields nothing.  ElectrumX never asks for
+                    # that (history keys are prefix + 2 bytes) but the model mirrors the engine.
+                    keys = []
             if len(keys) > 1 and prefix[:1] == b'h' and len(prefix) == 9:
                 world.sim.probes['prefix_collision'] += 1
             if include_value:
